@@ -76,9 +76,9 @@ def _strip_decorators(node):
 def builtin(it, name):
     def b_len(x):
         if isinstance(x, GA):
-            return NRows(x.data.n) if x.data.n else 0
+            return NRows(x.data.n, x.data.pop) if x.data.n else 0
         if isinstance(x, DF):
-            return NRows(x.n) if x.n else 0
+            return NRows(x.n, x.pop) if x.n else 0
         if isinstance(x, Vec):
             return NRows(len(x.v)) if len(x.v) else 0
         if isinstance(x, Opaque):
@@ -246,6 +246,18 @@ def builtin(it, name):
         fn = table[name]
         return _TypeProxy(pytype, fn)
     return table.get(name, NotImplemented)
+
+
+class ColList(list):
+    def drop(self, labels):
+        labels = [labels] if isinstance(labels, str) else list(labels)
+        return ColList(c for c in self if c not in labels)
+
+    def tolist(self):
+        return list(self)
+
+    def isin(self, other):
+        return [c in other for c in self]
 
 
 class _TypeProxy:
@@ -497,7 +509,7 @@ def value_attr(it, obj, attr):
         if attr in ("loc", "iloc", "at", "iat"):
             return BoundMethod(obj, attr)
         if attr == "columns":
-            return [c for c in obj.cols if not c.startswith("__")]
+            return ColList(c for c in obj.cols if not c.startswith("__"))
         if attr == "index":
             return Opaque("index")
         if attr == "empty":
@@ -783,6 +795,15 @@ def vec_method(it, obj, name, args, kw):
     if name == "dropna":
         return Vec([x for x in obj.v if not is_nan(x)])
     if name == "extract":
+        rx = args[0]
+        if hasattr(rx, "search") and all(isinstance(x, str) for x in obj.v):
+            names = list(rx.groupindex) or [str(i) for i in range(rx.groups)]
+            cols = {nm: [] for nm in names}
+            for x in obj.v:
+                m = rx.search(x)
+                for nm in names:
+                    cols[nm].append(m.group(nm) if (m and nm in rx.groupindex) else (m.group(int(nm) + 1) if m else None))
+            return DF({k: Vec(v) for k, v in cols.items()}, len(obj.v))
         return Opaque("str.extract")
     if name == "std" or name == "var":
         return fatom(name, [T(x) for x in obj.v if not is_nan(x)], 0.0, INF)
@@ -801,10 +822,10 @@ def df_method(it, obj, name, args, kw):
     if name == "copy":
         return obj.copy()
     if name == "reindex" and "columns" in kw:
-        return DF({c: obj.cols.get(c, Vec([None] * obj.n)) for c in kw["columns"]}, obj.n, obj.index)
+        return DF({c: obj.cols.get(c, Vec([None] * obj.n)) for c in kw["columns"]}, obj.n, obj.index, obj.pop)
     if name == "rename" and "columns" in kw:
         m = kw["columns"]
-        return DF({m.get(c, c): v for c, v in obj.cols.items()}, obj.n, obj.index)
+        return DF({m.get(c, c): v for c, v in obj.cols.items()}, obj.n, obj.index, obj.pop)
     if name == "assign":
         d = obj.copy()
         for k, v in kw.items():
@@ -851,13 +872,22 @@ def df_method(it, obj, name, args, kw):
             cols = [cols] if isinstance(cols, str) else list(cols)
             return DF({c: v for c, v in obj.cols.items() if c not in cols}, obj.n, obj.index)
     if name == "dropna":
-        return obj
+        subset = kw.get("subset")
+        cols = list(subset) if subset else [c for c in obj.cols if not c.startswith("__")]
+        if any(is_nan(x) for c in cols if c in obj.cols for x in obj.cols[c].v):
+            mask = Vec(not any(is_nan(obj.cols[c].v[i]) for c in cols if c in obj.cols) for i in range(obj.n))
+            return df_select(obj, mask)
+        return obj.copy()
     if name == "sort_values":
         d = obj.copy()
         d.index = "sorted"
         return d
     if name == "to_csv":
         return None
+    if name == "groupby" and obj.n == 1:
+        by = kw.get("by", args[0] if args else None)
+        if isinstance(by, str) and by in obj.cols:
+            return [(obj.cols[by].v[0], obj)]
     if name in ("groupby", "merge", "join", "pivot", "rolling", "duplicated", "sample"):
         return Opaque(f"mixed:{name}")
     if name == "get":
@@ -1028,6 +1058,15 @@ def ext_call(it, dotted, args, kw):
     if name in ("pd.DataFrame.from_records", "pd.DataFrame.from_dict"):
         return frame_from_records(it, args, kw)
     if name == "pd.concat":
+        parts = list(it.iterate(args[0]))
+        if parts and all(isinstance(x, DF) for x in parts) and kw.get("axis", 0) == 0:
+            cols = []
+            for x in parts:
+                cols += [c for c in x.cols if c not in cols]
+            n = sum(x.n for x in parts)
+            return DF({c: Vec([v for x in parts for v in (x.cols[c].v if c in x.cols else [None] * x.n)]) for c in cols}, n)
+        if parts and all(isinstance(x, Vec) for x in parts) and kw.get("axis", 0) == 0:
+            return Vec([v for x in parts for v in x.v])
         return Opaque("mixed:concat")
     if name in ("collections.OrderedDict", "OrderedDict", "collections.OrderedDict.fromkeys"):
         return dict(*[(x if isinstance(x, dict) else list(it.iterate(x))) for x in args], **kw)
